@@ -1,6 +1,6 @@
 (* Properties_C19.v — C19: one request per connection; nothing is sent after the close. *)
 From Coq Require Import List ZArith.
-From QH Require Import Bytes SocketM SockProofs.
+From QH Require Import Bytes Value SocketM SockIO SockProofs SockSpec SockSpecProofs.
 
 (* for every schedule of segments / acks / peer events / application calls and every
    application (reaction policy), headersParsed - and with it the server's routing, which is
@@ -27,3 +27,17 @@ Theorem C19_no_headers_after_close : forall e p s ops k,
   no_hdr (snd (run_ops_from e p k (fst (do_close s)) ops)).
 Proof. exact no_headers_after_close. Qed.
 Print Assumptions C19_no_headers_after_close.
+
+(* in every run (every schedule, every application that reacts when the request is announced): once the close is in the
+   log, no byte is written and no request is announced after it - the ordering statement over the whole log *)
+Theorem C19_log_ordered : forall e p ops k s,
+  hdr_after p = false -> ord (snd (run_ops_from e p k s ops)) = true.
+Proof. intros e p ops k s Hp. exact (proj1 (run_ordered e p ops Hp k s)). Qed.
+Print Assumptions C19_log_ordered.
+
+(* the boolean statement that check.py evaluates on the implementation's log (families sock, sockl) accepts every log
+   the model produces: a reported spec failure is a departure from the model, never a demand the model itself misses *)
+Theorem C19_model_meets_spec : forall c,
+  existsb is_bad (dec_log (run_sock c)) = false -> chk_C19_sock c (run_sock c) = true.
+Proof. exact model_meets_spec_C19. Qed.
+Print Assumptions C19_model_meets_spec.
